@@ -21,6 +21,8 @@ class Net(object):
     def __init__(self, clock):
         self.clock = clock
         self.reply = b"106A 00"
+        self.card = None             # bit rate / technology the remote party talks (C13, target variants): datagrams
+                                     # for another one are not for it and stay unanswered
         self.peer = ("127.0.0.1", 54321)
         self.fault = None
         self.log = []
@@ -71,6 +73,8 @@ class FakeSocket(object):
             if f.kind == "raw":
                 net.inbox.append(bytes(f.arg))
                 return len(data)
+        if net.card is not None and bytes(data).split(b" ")[0] != net.card.encode():
+            return len(data)
         net.inbox.append(net.reply)
         return len(data)
 
